@@ -109,8 +109,10 @@ class Plugin(BasePlugin):
         # $facet isolation: each branch must answer what it answers when run alone
         o['facet_iso'] = True
         last = case['pipeline'][-1] if case['pipeline'] else None
+        # ($sample is random: a standalone run legitimately differs)
         if isinstance(last, dict) and list(last) == ['$facet'] and isinstance(last['$facet'], dict) \
-                and 'ok' in o['r1'] and len(o['r1']['ok']) == 1:
+                and 'ok' in o['r1'] and len(o['r1']['ok']) == 1 \
+                and '$sample' not in genpipe.stage_names(case['pipeline']):
             for title, sub in last['$facet'].items():
                 if not isinstance(sub, list):
                     continue
